@@ -108,11 +108,12 @@ func solveAll(obls []*Obligation, cfg solveCfg) {
 
 func solveOne(o *Obligation, cfg solveCfg) {
 	// conjunctive goals are discharged conjunct by conjunct (earlier conjuncts become hypotheses)
-	if !o.ExpectSat && o.Goal.Op == "and" && len(o.Goal.Args) > 1 {
+	if parts := splitGoal(o.Goal); !o.ExpectSat && len(parts) > 1 {
 		var names []string
 		var total int64
 		hyps := append([]*Term(nil), o.Hyps...)
-		for i, g := range o.Goal.Args {
+		o.Goal = And(parts...)
+		for i, g := range parts {
 			sub := &Obligation{Name: o.Name, Key: o.Key, Fn: o.Fn, Kind: o.Kind, Hyps: hyps, Goal: g, Pos: o.Pos, Clause: o.Clause, Descr: fmt.Sprintf("%s [conjunct %d/%d]", o.Descr, i+1, len(o.Goal.Args)), Obs: o.Obs}
 			sub.SMT = strings.TrimSuffix(o.SMT, ".smt2") + fmt.Sprintf(".c%d.smt2", i+1)
 			if g.IsTrue() {
@@ -252,4 +253,34 @@ func uniqJoin(xs []string) string {
 		}
 	}
 	return strings.Join(out, "+")
+}
+
+// splitGoal distributes conjunctions out of implications and universal quantifiers:
+// A => (B && C)  ~>  A => B, A => C ;  forall x. (B && C)  ~>  forall x. B, forall x. C
+func splitGoal(g *Term) []*Term {
+	switch g.Op {
+	case "and":
+		var out []*Term
+		for _, a := range g.Args {
+			out = append(out, splitGoal(a)...)
+		}
+		return out
+	case "=>":
+		var out []*Term
+		for _, c := range splitGoal(g.Args[1]) {
+			out = append(out, Implies(g.Args[0], c))
+		}
+		return out
+	case "forall":
+		parts := splitGoal(g.Args[0])
+		if len(parts) <= 1 {
+			return []*Term{g}
+		}
+		var out []*Term
+		for _, c := range parts {
+			out = append(out, Forall(g.Bound, c))
+		}
+		return out
+	}
+	return []*Term{g}
 }
